@@ -16,6 +16,8 @@ from __future__ import annotations
 import copy
 import typing as t
 
+from hypothesis import strategies as st
+
 from ..core import Suite, Ctx
 from .. import tg, cg, gen
 from ..same import same
@@ -90,10 +92,62 @@ def check(case: t.Any, ctx: Ctx) -> None:
             ctx.fail('deterministic', nd.kind, f"from_data({short(v, 200)}, {nd.render()}) gave {short(out1[1], 150)} then {short(out2[1], 150)}: {d}")
 
 
+# ---- generic dataclasses that inherit several type parameters ---------------------------------------------------------------
+#
+# "annotated and generic forms": Named[int, str] for class Named(Pair) (Pair generic in K, V, not re-listed) binds int to K and
+# str to V, in the declared order - whatever the addresses of the TypeVar objects happen to be (fresh ones are made per case).
+
+@st.composite
+def generic_cases(draw) -> t.Any:
+    return [draw(st.sampled_from(['plain', 'forward', 'extra-param', 'sibling'])), draw(st.permutations(['int', 'str', 'float']))[:2], draw(st.integers(0, 9))]
+
+
+def check_generic(case: t.Any, ctx: Ctx) -> None:
+    import pane
+    import types as _types
+    (shape, (ka, va), salt) = case
+    types_ = {'int': (int, 5, 'x'), 'str': (str, 's', 5), 'float': (float, 1.5, 'x')}
+    junk = [t.TypeVar(f'J{i}') for i in range(salt)]      # shift allocation around
+    (K, V, W) = (t.TypeVar('K'), t.TypeVar('V'), t.TypeVar('W'))
+    del junk
+    Pair = _types.new_class('Pair', (pane.PaneBase, t.Generic[K, V]), {}, lambda ns: ns.update({'__annotations__': {'key': K, 'value': V}}))
+    if shape == 'plain':
+        Named = _types.new_class('Named', (Pair,), {}, lambda ns: ns.update({'__annotations__': {'name': str}, 'name': ''}))
+        args = (types_[ka][0], types_[va][0])
+    elif shape == 'forward':
+        Named = _types.new_class('Named', (Pair[K, V],), {}, lambda ns: ns.update({'__annotations__': {'name': str}, 'name': ''}))
+        args = (types_[ka][0], types_[va][0])
+    elif shape == 'extra-param':
+        Named = _types.new_class('Named', (Pair, t.Generic[W]), {}, lambda ns: ns.update({'__annotations__': {'name': W}, 'name': None}))
+        args = (type(None), types_[ka][0], types_[va][0])
+    else:
+        Side = _types.new_class('Side', (pane.PaneBase, t.Generic[W]), {}, lambda ns: ns.update({'__annotations__': {'name': W}, 'name': pane.field(default=None, kw_only=True)}))
+        Named = _types.new_class('Named', (Pair, Side), {}, lambda ns: ns.update({'__annotations__': {}}))
+        args = (types_[ka][0], types_[va][0], type(None))
+    ctx.label(f"generic-inherit:{shape}")
+    ctx.nontrivial(True)
+    ctx.evaluated()
+    (kt, T) = outcome(lambda: Named[args])
+    ident = f"class Pair(PaneBase, Generic[K, V]): key: K; value: V; Named = {shape}; Named[{', '.join(getattr(a, '__name__', str(a)) for a in args)}]"
+    if kt != 'ok':
+        ctx.fail('accepts-members', 'generic-inherit:subscription', f"{ident} raised {type(T).__name__}: {T}")
+        return
+    good = {'key': types_[ka][1], 'value': types_[va][1]}
+    swapped = {'key': types_[va][1], 'value': types_[ka][1]}
+    (k1, r1) = outcome(lambda: pane.from_data(good, T))
+    (k2, r2) = outcome(lambda: pane.from_data(swapped, T))
+    if k1 != 'ok' or r1.key != good['key'] or r1.value != good['value']:
+        ctx.fail('accepts-members', 'generic-inherit', f"{ident}: {good!r} is a member but: {k1} {short(r1, 120)}")
+    elif k2 == 'ok' and not (ka == 'float' and va == 'int') and not (va == 'float' and ka == 'int'):
+        ctx.fail('rejects-non-members', 'generic-inherit', f"{ident}: {swapped!r} has its values the wrong way round but was accepted as {short(r2, 120)}")
+
+
 def suites(tier: str) -> t.List[Suite]:
     big = tier == 'thorough'
     leaves = 8 if big else 4
     return [
         Suite('conv', check, strategy=lambda: gen.conv_cases(gen.all_type_specs(leaves)), examples=6000 if big else 500,
               budget_s=480 if big else 40, render=gen.render_case),
+        Suite('generic-inherit', check_generic, strategy=generic_cases, examples=300 if big else 30, budget_s=60 if big else 10,
+              render=lambda c: {'shape': c[0], 'arguments': c[1]}),
     ]
